@@ -60,6 +60,12 @@ def instances(tier, seed):
                     qn = [[[0]]] + [[[0], [1]] for _ in range(n - 1)] + [[[0]]]      # every bond carries the labels 0 and 1: both blocks are populated everywhere
                     out.append(dict(op="sweep", kinds=kinds, bonds=bonds, qn=qn, qnidx=(n - 1 if start == "right" else 0), method=method, omega=om, obond=(1 if (om and n > 2) else 2),
                                     run_opts=dict(budget_s=120.0), label="optimize_mps sweep %s %s centre starts %s omega=%s" % ("".join(kinds), method, start, om), key="sweep/%s/%s" % (method, "omega" if om else "plain")))
+    # tree optimiser: the real optimize_ttns recursion (two-site) with the eigensolver replaced by a contract stub
+    trees = [((0, 0), (1, 1, 1), 1), ((0, 1), (1, 1, 1), 1), ((0, 0), (1, 1, 1), 2), ((0,), (2, 1), 1)]
+    if tier == "thorough":
+        trees += [((0, 0, 0), (0, 1, 1, 1), 1), ((0, 1), (1, 1, 1), 2), ((0, 0, 1), (1, 1, 0, 1), 1)]
+    for par, cnt, q in trees:
+        out.append(dict(op="tree_sweep", parents=list(par), counts=list(cnt), qntot=q, label="optimize_ttns sweep parents=%s counts=%s sector %d" % (list(par), list(cnt), q), key="tree_sweep"))
     return out
 
 
@@ -150,9 +156,77 @@ def h_sweep(ctx, P):
     ctx.check("optimize_mps: one sweep optimises every site (pair) exactly once in sweep order", len(steps) == nsteps and (seq == sorted(seq) or seq == sorted(seq, reverse=True)) and len(set(steps)) == nsteps)
 
 
+def h_tree_sweep(ctx, P):
+    """the real tree optimiser for one macro-iteration: at every two-site step the operator handed to the eigensolver is the projection of H
+    onto the masked two-site coefficients of the CURRENT state.  (The Davidson preconditioner `hdiag` is NOT an obligation: it only steers
+    convergence.  Observation recorded in DESIGN.md: tn/hop_expr._get_hdiag tests whole index tuples against "_conj"/"up", so no index is
+    renamed and the returned vector is a column sum rather than the diagonal.)"""
+    from checks import treelib, c11, c12
+    treelib.ensure_print_tree()
+    from renormalizer.tn import gs as tngs
+    from renormalizer.utils import OptimizeConfig, CompressConfig, CompressCriteria
+    from symnum import stubs
+    tree, nodes = treelib.build_basis_tree(P["parents"], P["counts"], ("e", "e", "e"))
+    a = treelib.build_labelled_ttns(ctx, "a", tree, P["qntot"], 1)
+    o = c11.sym_ttno(ctx, "o", tree, 2)
+    O = treelib.dense_ttno(o)
+    a.optimize_config = OptimizeConfig(procedure=[[4, 0]])
+    a.compress_config = CompressConfig(CompressCriteria.fixed, max_bonddim=4)
+    cur = {}
+    conds = []
+    cnt = [0]
+    order = []
+    real_hop2, real_eig = tngs.hop_expr2, tngs.eigh_iterative
+
+    def hop2_wrapper(snode, ttns, ttno, ttne):
+        cur["node"] = snode
+        return real_hop2(snode, ttns, ttno, ttne)
+
+    def fake_eig(hop, hdiag, cguess, algo):
+        snode = cur["node"]
+        ni, pi = a.node_idx[snode], a.node_idx[snode.parent]
+        order.append(ni)
+        mask = np.asarray(a.get_qnmask(snode, include_parent=True))
+        K = int(mask.sum())
+        cnt[0] += 1
+        x = ctx.array("x%d_" % cnt[0], (K,), "real")
+        xt = tngs.vec2tensor(np.asarray(x), mask) if not ctx.symbolic else _place(x, mask)
+        psi_x = c12._dense_with_two(a, ni, pi, xt)
+        Hpsi = O.dot(psi_x)
+        full = c12._project_two(a, ni, pi, Hpsi, list(mask.shape))
+        conds.append(ctx.eq(np.asarray(hop(x)), full[mask].ravel()))
+        return ctx.real("e%d" % cnt[0], -0.4), ctx.array("c%d_" % cnt[0], (K,), "real")
+    tngs.hop_expr2, tngs.eigh_iterative = hop2_wrapper, fake_eig
+    undo = None
+    if ctx.symbolic:
+        _, undo = stubs.lapack_contract(ctx, modules=("renormalizer.mps.svd_qn",))
+    try:
+        tngs.optimize_ttns(a, o)
+    finally:
+        tngs.hop_expr2, tngs.eigh_iterative = real_hop2, real_eig
+        if undo:
+            undo()
+    ctx.check("optimize_ttns: at every two-site step the operator handed to the eigensolver = projection of H onto the masked coefficients of the current state", ctx.all(conds))
+    nonroot = [i for i, nd in enumerate(a.node_list) if nd.parent is not None]
+    ctx.check("optimize_ttns: every bond is optimised (leaf bonds once, inner bonds twice per macro-iteration)",
+              all(order.count(i) == (2 if a.node_list[i].children else 1) for i in nonroot) and len(order) == sum(2 if a.node_list[i].children else 1 for i in nonroot))
+    ctx.check("optimize_ttns: labels of the optimised state stay valid, sector kept", ctx.all([c11.tree_inv(ctx, a), lib.ctx_eq_labels(ctx, a.qntot, [P["qntot"]])]))
+
+
+def _place(x, mask):
+    out = np.empty(mask.shape, dtype=object)
+    out[...] = 0
+    it = iter(np.asarray(x).ravel())
+    for idx in zip(*np.nonzero(mask)):
+        out[idx] = next(it)
+    return out
+
+
 def make_harness(P):
     if P.get("op") == "sweep":
         return lambda ctx: h_sweep(ctx, P)
+    if P.get("op") == "tree_sweep":
+        return lambda ctx: h_tree_sweep(ctx, P)
 
     def h(ctx):
         from renormalizer.mps import Mps, Mpo
@@ -272,13 +346,21 @@ def _contract(ts):
     return res[:, 0]
 
 
+def _tn_gs():
+    from checks import treelib
+    treelib.ensure_print_tree()
+    from renormalizer.tn import gs as tngs
+    return tngs
+
+
 def main(tier, seed):
     from renormalizer.mps import gs, hop_expr as he, lib as mlib
     return common.run_check(
         PROP, "checks.c08", tier, seed,
         explanation="get_ham_direct, get_ham_iterative (diagonal + hop_expr operator), the (H-omega)^2 two-layer form, StackedMpo summation the incremental environment update, and the REAL optimize_mps driver "
                     "for one sweep with the eigensolver replaced by a contract stub (arbitrary energy and coefficients; symbolic omega: matrix at every local step = projection of H resp. "
-                    "(H - omega)^2 on the current state, every site (pair) optimised once in order) "
+                    "(H - omega)^2 on the current state, every site (pair) optimised once in order), and the real tree optimiser optimize_ttns for one macro-iteration "
+                    "on labelled 3-4 node trees (operator at every two-site step = projection of H on the masked coefficients, every bond visited, labels kept) "
                     "on chains of 2-3 (thorough 4) sites with fully symbolic state and operator tensors (bond 2), every centre position, one- and two-site, both directions, "
                     "restricted to the quantum-number mask: every matrix element equals <e_i|H|e_j> computed from the dense operator and the dense tangent vectors.",
         assumptions=["NOT covered (DESIGN.md section 2): 'the reported energy is an upper bound', agreement with exact diagonalisation at full bond dimension, Davidson/ARPACK/primme "
@@ -286,7 +368,7 @@ def main(tier, seed):
                      "isometry of the non-centre sites (C04); that inference is recorded, not machine-checked",
                      "real-valued tensors; tree counterparts are under C12/C11", "normalisation and sector of the returned state: C04/C06 step lemmas (_update_mps in C06)"],
         trusted_base=["z3 5.1", "NumPy object loops", "opt_einsum path execution on object arrays"],
-        functions=[gs.optimize_mps, gs.single_sweep, gs.get_ham_direct, gs.get_ham_iterative, he.hop_expr, mlib.Environ.GetLR, mlib.Environ._construct, mlib.contract_one_site, mlib.contract_one_site_multi_mpo, mlib.cvec2cmat])
+        functions=[gs.optimize_mps, gs.single_sweep, _tn_gs().optimize_ttns, _tn_gs().optimize_recursion, _tn_gs().optimize_2site, gs.get_ham_direct, gs.get_ham_iterative, he.hop_expr, mlib.Environ.GetLR, mlib.Environ._construct, mlib.contract_one_site, mlib.contract_one_site_multi_mpo, mlib.cvec2cmat])
 
 
 if __name__ == "__main__":
